@@ -62,9 +62,25 @@ func cmdVerify(args []string) {
 		}
 		results = append(results, verifyContract(l, cs, ct))
 	}
+	if len(names) > 0 {
+		for _, tb := range cs.Tables {
+			for _, n := range names {
+				if strings.Contains(tb.Pkg+"."+tb.Global, n) {
+					results = append(results, verifyTable(l, cs, tb))
+				}
+			}
+		}
+		for _, lm := range cs.Lemmas {
+			for _, n := range names {
+				if strings.Contains("lemma."+lm.Name, n) {
+					results = append(results, verifyLemma(l, cs, lm))
+				}
+			}
+		}
+	}
 	solveAll(results, budget, 16, nil)
 	for _, r := range results {
-		fmt.Printf("== %s (%s)\n", r.Contract.Qual, r.Mode)
+		fmt.Printf("== %s (%s)\n", r.Name(), r.Mode)
 		for _, u := range r.Unsupported {
 			fmt.Println("   UNSUPPORTED:", u)
 		}
